@@ -37,6 +37,9 @@ type half struct {
 
 	rdeadline time.Time
 	rtimer    *time.Timer
+
+	lastDelivered time.Time // when bytes were last made available to the reader of this half
+	delivered     int64
 }
 
 type pendingItem struct {
@@ -80,6 +83,8 @@ func (h *half) pump() {
 		}
 		if !h.reset {
 			h.buf = append(h.buf, it.data...)
+			h.lastDelivered = time.Now()
+			h.delivered += int64(len(it.data))
 		}
 		h.cond.Broadcast()
 		h.mu.Unlock()
@@ -148,6 +153,8 @@ func (h *half) deliver(data []byte) {
 	h.mu.Lock()
 	if !h.reset {
 		h.buf = append(h.buf, data...)
+		h.lastDelivered = time.Now()
+		h.delivered += int64(len(data))
 	}
 	h.cond.Broadcast()
 	h.mu.Unlock()
@@ -322,4 +329,44 @@ func (n *Net) Dial(ctx context.Context, network, address string) (net.Conn, erro
 	case <-ctx.Done():
 		return nil, ctx.Err()
 	}
+}
+
+// LastDelivered returns the instant at which bytes were last delivered in the given direction (zero if never) and how many so far.
+func (l *Link) LastDelivered(c2s bool) (time.Time, int64) {
+	h := l.S2C
+	if c2s {
+		h = l.C2S
+	}
+	h.mu.Lock()
+	defer h.mu.Unlock()
+	return h.lastDelivered, h.delivered
+}
+
+// BlackholeAll black-holes every existing link in the given directions and every link dialed from now on.
+func (n *Net) BlackholeAll(c2s, s2c bool) {
+	n.mu.Lock()
+	prev := n.OnDial
+	n.OnDial = func(l *Link) error {
+		l.Blackhole(c2s, s2c)
+		if prev != nil {
+			return prev(l)
+		}
+		return nil
+	}
+	links := append([]*Link(nil), n.links...)
+	n.mu.Unlock()
+	for _, l := range links {
+		l.Blackhole(c2s, s2c)
+	}
+}
+
+// LastHeard returns the latest instant at which any link delivered bytes in the given direction.
+func (n *Net) LastHeard(c2s bool) time.Time {
+	var t time.Time
+	for _, l := range n.Links() {
+		if d, _ := l.LastDelivered(c2s); d.After(t) {
+			t = d
+		}
+	}
+	return t
 }
